@@ -477,6 +477,15 @@ func muxSections(c *mon.Ctx, idx int64, r *rand.Rand) {
 				d.Length = d.Length/2 + 3
 			}
 			n, _ := refts.DescriptorBodyLen(d)
+			if r.IntN(4) == 0 {
+				// language / country codes that are not 3 bytes long (the demuxer returns such values for some real streams): whatever
+				// the writer makes of them, the lengths it declares must cover what it writes
+				k := []int{0, 1, 2, 4, 7}[r.IntN(5)]
+				if m := mon.ResizeCodes(d, k); m > 0 {
+					c.Count("descriptors_with_codes_of_another_length")
+					n += m * 4 // room for the longest variant
+				}
+			}
 			budget -= 2 + n
 			es.ElementaryStreamDescriptors = append(es.ElementaryStreamDescriptors, d)
 			c.Seen("muxed_descriptor_tags", tagClass(d.Tag))
